@@ -113,11 +113,57 @@ std::string asan_summary(const std::string &err)
 		} else
 			r += l[k];
 	}
+	/* frames are not symbolised inside the incarnation (no helper processes there): do it here */
+	{
+		std::string offs;
+		size_t f = err.find("    #0 0x");
+		int n = 0;
+		while (f != std::string::npos && n < 4) {
+			size_t plus = err.find("+0x", f), eol = err.find('\n', f);
+			if (plus == std::string::npos || eol == std::string::npos || plus > eol)
+				break;
+			size_t e = plus + 3;
+			while (e < eol && isxdigit((unsigned char)err[e]))
+				e++;
+			offs += " 0x" + err.substr(plus + 3, e - plus - 3);
+			n++;
+			f = err.find("    #" + std::to_string(n) + " 0x", eol);
+		}
+		if (!offs.empty()) {
+			char exe[512];
+			ssize_t k = readlink("/proc/self/exe", exe, sizeof(exe) - 1);
+			if (k > 0) {
+				exe[k] = 0;
+				std::string cmd = "addr2line -f -s -e " + std::string(exe) + offs + " 2>/dev/null";
+				FILE *fp = popen(cmd.c_str(), "r");
+				if (fp) {
+					char line[512];
+					std::string fn, loc, all;
+					int i = 0;
+					while (fgets(line, sizeof(line), fp)) {
+						std::string l = line;
+						while (!l.empty() && (l.back() == '\n'))
+							l.pop_back();
+						if (i % 2 == 0)
+							fn = l;
+						else {
+							if (fn.find("__wrap_") == std::string::npos && fn.find("sim::") == std::string::npos && fn != "??")
+								all += (all.empty() ? "" : " < ") + fn + " " + l;
+						}
+						i++;
+					}
+					pclose(fp);
+					if (!all.empty())
+						r += " [in " + all + "]";
+				}
+			}
+		}
+	}
 	size_t s = err.find("SUMMARY: AddressSanitizer:");
 	if (s != std::string::npos) {
 		std::string sl = first_line(err.substr(s + 27), 160);
 		size_t in = sl.find(" in ");
-		if (in != std::string::npos)
+		if (in != std::string::npos && r.find(" [in ") == std::string::npos)
 			r += " [in " + sl.substr(in + 4) + "]";
 	}
 	return r;
